@@ -503,3 +503,65 @@ def empty_containers(sx, cfg):
         else:
             ok.append(o is not None and o.n == 1 and o.arr in (None, []) and o.objs in (None, []))
     return sx.And(*ok)
+
+
+class DecSvc(Service):
+    @rpc(Decimal, Array(Decimal), _returns=Decimal)
+    def dec(ctx, d, ds):
+        CAPTURE['args'] = (d, ds)
+        return CAPTURE.get('ret')
+
+
+DAPPS = {}
+
+
+@harness('C02', params=[(p, v) for p in ('json', 'yaml', 'msgpack-bkey') for v in (None, 'soft')],
+         label=lambda p: '%s validator=%s' % p, functions=FUNCS[:4] + ['spyne.protocol._inbase.InProtocolBase.decimal_from_unicode',
+                                                                      'spyne.protocol._outbase.OutProtocolBase.decimal_to_unicode'],
+         bounds={'decimals': 'sign, 2 integer digits and 34 fraction digits, all symbolic (more significant digits than the '
+                             'default decimal context keeps), sent as text; as argument and as array element'})
+def huge_decimals(sx, cfg):
+    """decimals of any magnitude survive unchanged in both directions"""
+    pname, validator = cfg
+    if cfg not in DAPPS:
+        cls = PROTOCOLS[pname]
+        app = Application([DecSvc], 'tns', in_protocol=cls(validator=validator), out_protocol=cls())
+        DAPPS[cfg] = (app, ServerBase(app))
+    app, server = DAPPS[cfg]
+    neg = sx.choose('neg', ['', '-'])
+    ip = sx.digits('ip', 2)
+    fp = sx.digits('fp', 34)
+    sx.assume(sx.And(sx.Not(sx.eq(ip[:1], '0')), sx.Not(sx.eq(fp[33:], '0'))))
+    text = neg + ip + '.' + fp
+    ctx = deliver(sx, pname, app, server, {'dec': {'d': text, 'ds': [text]}})
+    got = ctx.in_object
+    if got is None or len(got) != 2 or got[0] is None or not got[1] or len(got[1]) != 1:
+        return False
+    want = sx.digits_value(ip + fp)
+    if neg:
+        want = -want
+    if sx.symbolic:
+        from symx.core import SInt
+        vals = [SInt(x.value_scaled(-34)) for x in (got[0], got[1][0])]
+    else:
+        vals = [_exact_scaled(x, 34) for x in (got[0], got[1][0])]
+    doc = respond(sx, pname, app, ctx, [got[0]])
+    node = _denorm(doc[0])
+    if pname.startswith('msgpack'):
+        node = _as_text(sx, node)
+    return sx.And(sx.eq(vals[0], want), sx.eq(vals[1], want), sx.is_str(node), sx.eq(node, text))
+
+
+def _exact_scaled(d, k):
+    """d * 10**k as an exact integer (no decimal context involved)"""
+    sign, digits, exp = d.as_tuple()
+    n = int(''.join(map(str, digits)) or '0')
+    e = exp + k
+    if e < 0:
+        q, r = divmod(n, 10 ** (-e))
+        if r:
+            return None
+        n = q
+    else:
+        n = n * 10 ** e
+    return -n if sign else n
